@@ -154,8 +154,66 @@ def concrete_items(run: Run, rng, tier, t):
     return items
 
 
+def cross_items(run: Run, rng, tier):
+    """two valid hands of two DIFFERENT types.  The rules of neither game rank such a pair against each other, so refusing
+    (TypeError / not equal) is always right; but an answer, if the code gives one, has to be the answer of the rules of one of
+    the two games - a hand type that inherits from another must not be compared through the other's look-up."""
+    items = []
+
+    def ans(f):
+        try:
+            v = f()
+        except TypeError:
+            return 'none'
+        return 'true' if v is True else 'false' if v is False else 'none'
+    pairs = [(a, b) for a in BASE for b in BASE if a != b and a != 'Kuhn' and b != 'Kuhn' and SIZES.get(a, (5,)) == SIZES.get(b, (5,))]
+    by_index = {}
+    for t in {p[1] for p in pairs}:
+        by_index[t] = {}
+        for cs in representatives(t, rng):
+            h = make(t, cs)
+            if h is not None:
+                by_index[t].setdefault(h.entry.index, list(cs))
+
+    def add(t1, t2, a, b, ha, hb):
+        items.append({'kind': 'cross', 't1': t1, 't2': t2, 'a': list(a), 'b': list(b), 'eq': ans(lambda: ha == hb), 'ne': ans(lambda: ha != hb),
+                      'lt': ans(lambda: ha < hb), 'gt': ans(lambda: ha > hb)})
+        run.count('cross_type_pairs')
+    for t1, t2 in pairs:
+        # the pairs an implementation comparing positions in two unrelated look-ups would call equal
+        n_same = 0
+        for _ in range(200):
+            if n_same >= (8 if tier == 'quick' else 80):
+                break
+            k = rng.choice(SIZES.get(t1, (5,)))
+            a = rng.sample([c for c in DECKS[t1] if c in DECKS[t2]], k)
+            ha = make(t1, a)
+            b = by_index[t2].get(ha.entry.index) if ha is not None else None
+            hb = make(t2, b) if b is not None else None
+            if hb is not None and all(c in DECKS[t1] for c in b):
+                add(t1, t2, a, b, ha, hb)
+                n_same += 1
+                run.count('cross_type_pairs_same_position')
+        deck = [c for c in DECKS[t1] if c in DECKS[t2]]
+        made = 0
+        for _ in range(400 if tier == 'quick' else 4000):
+            if made >= (12 if tier == 'quick' else 150):
+                break
+            k = rng.choice(SIZES.get(t1, (5,)))
+            pool = deck if rng.random() < 0.5 else [c for c in deck if c // 4 <= 6 or c // 4 == 12]
+            a, b = rng.sample(pool, k), rng.sample(pool, k)
+            ha, hb = make(t1, a), make(t2, b)
+            if ha is None or hb is None:
+                continue
+            made += 1
+            add(t1, t2, a, b, ha, hb)
+    return items
+
+
 def check_C04(run: Run):
     rng = random.Random(run.seed + 4)
+    items = cross_items(run, rng, run.tier)
+    run_items(run, items, 'C04_cross_type', sig=lambda it, m: f"hand:{it['kind']}:{it['t1']}")
     items = class_level(run, rng)
     run.sample(items[0])
     run.sample([x for x in items if x['kind'] == 'cmp'][0])
@@ -170,10 +228,10 @@ def check_C04(run: Run):
         del items2
     run.rule = ('class level: every (rank multiset, suit pattern) class of every look-up, validity + label + order isomorphism with '
                 'entry.index by consecutive comparison; concrete level: card subsets of the type\'s deck (exhaustive where the '
-                'count fits the tier, else sampled), all six operators and hash on pairs; distinct_nontrivial = number of distinct '
+                'count fits the tier, else sampled), all six operators and hash on pairs; pairs of hands of two different types: any answer given is the answer of one of the two games; distinct_nontrivial = number of distinct '
                 'strength classes accepted by the implementation')
     run.exhaustive = False
-    run.need('classes:StandardHigh', 'classes:Badugi', 'exhaustive:Kuhn:1')
+    run.need('classes:StandardHigh', 'classes:Badugi', 'exhaustive:Kuhn:1', 'cross_type_pairs', 'cross_type_pairs_same_position')
 
 
 # ---------------------------------------------------------------------------------------------------------------------
@@ -182,10 +240,31 @@ GAME_TYPES = ['StandardHigh', 'StandardLow', 'ShortDeck', 'EightOrBetter', 'Regu
 GDECK = {'ShortDeck': DECKS['ShortDeck'], 'Kuhn': DECKS['Kuhn']}
 
 
-def best_item(t, hole, board):
+FORMS = ('tuple', 'tuple', 'list', 'iterator', 'text')
+
+
+def in_form(cards, form):
+    """the same cards in another admissible writing (any iterable of cards, or text)"""
+    cs = cards_of(cards)
+    if form == 'list':
+        return list(cs)
+    if form == 'iterator':
+        return iter(list(cs))          # one pass only, as State.get_hand passes them
+    if form == 'text':
+        return ''.join(repr(c) for c in cs)
+    return cs
+
+
+def best_item(t, hole, board, form='tuple', entry='or_none'):
     cls = TYPE_CLASSES[t]
-    h = cls.from_game_or_none(cards_of(hole), cards_of(board))
-    return {'kind': 'best', 't': t, 'hole': list(hole), 'board': list(board), 'found': h is not None,
+    if entry == 'or_none':
+        h = cls.from_game_or_none(in_form(hole, form), in_form(board, form))
+    else:
+        try:
+            h = cls.from_game(in_form(hole, form), in_form(board, form))
+        except ValueError:
+            h = None
+    return {'kind': 'best', 't': t, 'hole': list(hole), 'board': list(board), 'found': h is not None, 'form': form, 'entry': entry,
             'cards': [] if h is None else [card_int(c) for c in h.cards]}
 
 
@@ -253,7 +332,7 @@ def check_C05(run: Run):
         for _ in range(n_rand if t != 'Kuhn' else 30):
             nh, nb = shapes(t, rng)
             hole, board = biased_deal(t, rng, nh, nb)
-            items.append(best_item(t, hole, board))
+            items.append(best_item(t, hole, board, rng.choice(FORMS), rng.choice(['or_none', 'or_none', 'raising'])))
             # the same cards split differently between hole and board (the composition rule is about which is which)
             if hole and board and rng.random() < 0.3:
                 allc = hole + board
@@ -261,10 +340,12 @@ def check_C05(run: Run):
                 items.append(best_item(t, allc[:len(hole)], allc[len(hole):]))
     for it in items:
         run.count('best_found' if it['found'] else 'best_none')
+        run.count('cards_written_as:' + it['form'])
+        run.count('entry:' + it['entry'])
         run.nontrivial.add((it['t'], tuple(sorted(it['hole'])), tuple(sorted(it['board']))))
     run.sample(items[0])
     run.sample(items[-1])
     run_items(run, items, 'C05_best', sig=lambda it, m: f"best:{it['t']}")
     run.rule = ('(hand type, hole, board) triples: all deals of small shapes from a 9-card sub-deck + shape/pattern-biased random deals '
-                'over the type\'s deck; non-trivial = distinct (type, hole set, board set)')
-    run.need('best_found', 'best_none')
+                'over the type\'s deck, the cards written as tuples, lists, one-pass iterators or text, through from_game_or_none and from_game; non-trivial = distinct (type, hole set, board set)')
+    run.need('best_found', 'best_none', 'cards_written_as:iterator', 'cards_written_as:text', 'entry:raising')
